@@ -15,6 +15,7 @@ for d in seeded/C*-*/; do
   [ "$id" = C14-c ] && extra="C01"
   nb=1; [ "${SEED_BASELINE:-0}" = 1 ] && nb=0
   SEED_INPLACE=1 SEED_NOBASELINE=$nb tools/seedtest.sh $d $TIER $prop $extra 2>&1 | grep -E '^==|key=|baseline' | cut -c1-220
+  python3 -c 'import json,sys; m=json.load(open(sys.argv[1])); print("   note: neutralised - "+m["neutralised"]) if "neutralised" in m else None' $d/meta.json
 done
 } > $OUT.tmp 2>&1
 mv $OUT.tmp $OUT
